@@ -12,6 +12,6 @@ for P in "$@"; do
   out=$(A5_REPO=$S/repo VERIF_BUILD=$S/build VERIF_OUT=$S/out VERIF_SCRATCH=$S timeout 3000 /verif/check $P 2>&1)
   rc=$?
   echo "== $ID $P rc=$rc"
-  echo "$out" | grep -E "^(VIOLATION|UNDECIDED|OK|  obligation|  failing)" | cut -c1-260
+  echo "$out" | grep -E "^(VIOLATION|UNDECIDED|OK|  |Traceback|[A-Za-z]*Error)" | cut -c1-260
 done
 rm -rf $S
